@@ -150,6 +150,10 @@ def run(ctx):
     ctx.extra["typed_requests_decided_from_mir"] = c11.typed_requests_mir(ctx)
     # ---------------- native inverse on one instruction per kind (validation of the pairing)
     native_roundtrip(ctx, S, rp, P)
+    native_utf8_strings(ctx, rp)
+    # the entries whose operands are context-dependent, paired or nested (OpConstant, OpSpecConstant, OpSwitch, OpSpecConstantOp,
+    # OpGroupMemberDecorate, OpPhi): parse_inst from MIR against the grammar entry (C03's machinery)
+    c03.entry_runs(ctx, q, S, rp, only_special=True)
     rp.close()
     ctx.validated = rp.count
     hs = ["k_string_pack"] if ctx.tier == "thorough" else ["k_string_pack_small"]
@@ -159,6 +163,31 @@ def run(ctx):
     ctx.extra["transitions"] = ctx.queries
     ctx.extra["cvc5"] = q.summary()
     ctx.extra["explanation"] = "Per-variant assemble arms and per-kind parse arms from MIR with a symbolic payload word; equality of emitted / delivered words by z3."
+
+
+def native_utf8_strings(ctx, rp, maxc=4):
+    """Strings with multi-byte characters: the Kani harness is restricted to ASCII (CBMC runs out of memory on `String::push` of
+    multi-byte characters), so the same scenario function is run natively on EVERY string of <= maxc characters over the alphabet
+    {a, e-acute (2 bytes), euro (3 bytes), an emoji (4 bytes)}: packed words = the UTF-8 bytes, NUL padded, byte length / 4 + 1
+    words. Enumeration, not a solver result: it validates that the ASCII-only harness does not hide a chars-vs-bytes confusion."""
+    import itertools
+    import kani
+    names = kani.code_names()
+    n = 0
+    for k in range(0, maxc + 1):
+        for combo in itertools.product((0x61, 0x81, 0x82, 0x83), repeat=k):
+            raw = bytes([k] + list(combo) + [0] * (7 - k))
+            real = rp.ask("scenario string_pack_utf8 %s" % raw.hex())
+            n += 1
+            code = real.get("code")
+            if "panic" in real or (code is not None and code >= 100):
+                what = ("panics: %s" % real["panic"]) if "panic" in real else names.get(code, str(code))
+                ctx.ob("strings/utf8/%s" % raw.hex(), False, what)
+                ctx.violation("assemble/string/multi-byte/%s" % (what.split(":")[0] if "panic" in real else what),
+                              "assembling a string of %d characters with multi-byte UTF-8 encodings (selectors %s): %s" % (k, [hex(c) for c in combo], what),
+                              {"cmd": "scenario string_pack_utf8 %s" % raw.hex(), "real": real})
+                return
+    ctx.ob("strings/utf8/%d-strings-of-up-to-%d-characters" % (n, maxc), True)
 
 
 def m_extend_array(engine, st, fr, callee, args, ops):
